@@ -610,3 +610,46 @@ def enc_range_round_only(chk, program):
         inst = f"encode_number@bits={n},signed={s},res={res}"
         chk.check(f['conv'] == 'round', 'ROUND', inst, file=UT, line=f['line'], func='encode_number', expected='int(round(value / resolution))', found=f['conv'],
                   detail=f"{len(users)} fields, e.g. {users[0][0].key}:{users[0][1].dbid}")
+
+def help_strings(chk, program, rule='HELP-STR'):
+    """string helpers: the variable-length (LAU) decoder must report a skip of exactly 8 x its length byte, read from the
+    first byte at the field's offset; the fixed decoder extracts exactly BitLength bits"""
+    hs = helpers(program)
+    fn = hs.get('decode_string_lau')
+    if fn is None:
+        raise AnalysisError('anchor utils.decode_string_lau vanished')
+    ex = sym.SymExec(fn)
+    try:
+        ex.run()
+    except sym.Unsupported as u:
+        raise AnalysisError(f"utils.decode_string_lau: {u}")
+    d, o = ('param', ex.params[0]), ('param', ex.params[1])
+    shifted = ('binop', '>>', d, o)
+    rets = [e for e in ex.events if e[0] == 'return' and e[2][0] == 'tuple' and len(e[2][1]) == 2]
+    chk.check(len(rets) >= 1, rule, 'decode_string_lau::returns-pair', file=UT, line=fn.lineno, func='decode_string_lau', expected='(text, bits to skip)', found=len(rets), nontrivial=False)
+    for e in rets:
+        skip = e[2][1][1]
+        # the short-input path returns len(byte_arr) (0/1 byte available): accepted as is; the regular path must be 8 * first byte
+        g = sym.conj(e[1])
+        short = any(x[0] == 'cmp' and x[1] == '<' and sym.is_const(x[3]) for x in g)
+        if short:
+            continue
+        ok = False
+        for a, b in ((skip[2], skip[3]), (skip[3], skip[2])) if skip[0] == 'binop' and skip[1] == '*' else ():
+            if b == C(8) and a[0] == 'sub' and a[2] == C(0):
+                ba = a[1]
+                # byte_arr = (data >> offset).to_bytes(..., 'little')
+                if ba[0] == 'call' and ba[1][0] == 'attr' and ba[1][2] == 'to_bytes' and ba[1][1] == shifted:
+                    order = dict(ba[3]).get('byteorder', ba[2][1] if len(ba[2]) > 1 else None)
+                    ok = order == C('little')
+        chk.check(ok, rule, 'decode_string_lau::skip', file=UT, line=e[-1], func='decode_string_lau',
+                  expected='bits to skip = 8 * <length byte = first byte of (data >> bit_offset) little-endian>', found=show(skip)[:160],
+                  detail='' if ok else 'every field after the string would be read at the wrong offset whenever the skip differs from the length byte (non-ASCII text, surrogate pairs)')
+    fx = hs.get('decode_string_fix')
+    if fx is not None:
+        rows = residual(program, 'decode_string_fix', {'data_raw': D, 'bit_offset': OFF, 'bit_length': C(64)})
+        r1 = norm_rows(rows, [{f: R for f in extract_forms(OFF, 64)}])
+        used = any(s_ == R for (_, gs, v, _) in r1 for t in (list(gs) + [v]) for s_ in sym.walk(t))
+        left = any(s_ == D for (_, gs, v, _) in r1 for t in (list(gs) + [v]) for s_ in sym.walk(t))
+        chk.check(used and not left, rule, 'decode_string_fix::extract', file=UT, line=fx.lineno, func='decode_string_fix',
+                  expected='text taken from exactly the BitLength bits at BitOffset', found=[show(v)[:100] for (_, _, v, _) in rows][:2])
